@@ -14,6 +14,14 @@ pub fn vpanic() -> !
     panic!()
 }
 
+/// R4b: a panic site that the unit file declares as accepted behaviour (with
+/// the reason); control does not continue, nothing is assumed about inputs.
+#[verifier::external_body]
+pub fn vabort() -> !
+{
+    panic!()
+}
+
 /// R3: `format!(..)` — message text only; no postcondition, so no proof can
 /// depend on it.
 #[verifier::external_body]
